@@ -4,7 +4,9 @@
     the k-th def - counted in the order of declaration), and, next to the defs, their flattened field tables
     ([e_dtbl]).  The type of a declaration is known when it is written down: a field / template argument declared
     with a class type, a defvar (or statement-level defvar) whose initialiser is an identifier or a class value; a
-    def name used as a value is that def; a class value `A<..>` is of class A.  [spec_sufs]: a suffix `.f` on a
+    def name used as a value is that def; a class value `A<..>` is of class A; a field inherited from a parent class
+    has the type it was declared with there (the class tables carry the types of their fields, [ci_ftys], [align]) and a
+    field `let` keeps the type of the field it re-declares.  [spec_sufs]: a suffix `.f` on a
     value of a known record type denotes the field f of its flattened table; on anything else (and after any other
     suffix, or after another `.f`) nothing is known and the use is listed as unresolved.
     Everything else is ScopeSpec.v verbatim (same rules; the comment there applies). *)
@@ -29,11 +31,12 @@ Definition frame_lookup (n : name) (fr : frame) : option rng :=
             end
   end.
 
-Record cinfo : Type := mkCi { ci_rng : rng; ci_fields : list (name * rng) }.
 
 (** What is known about the type of a declaration: nothing, or that it is the k-th class / the k-th def of the
     workspace (counted in the order of declaration; a later declaration of the same name is another class). *)
-Inductive sty : Type := TUnk | TCls (k : nat) | TDef (k : nat).
+Inductive sty : Type := TUnk | TCls (k : nat) | TDef (k : nat) | TList (t : sty).
+(** a class: where it is declared, its flattened field table and the types of those fields *)
+Record cinfo : Type := mkCi { ci_rng : rng; ci_fields : list (name * rng); ci_ftys : list (name * sty) }.
 (** the types of the declarations of a frame (same names, same order as the frame) *)
 Record tframe : Type := mkTF {
   tf_vars : list (name * sty); tf_fields : list (name * sty); tf_targs : list (name * sty) }.
@@ -92,9 +95,26 @@ Definition fields_of (e : env) (t : sty) : option (list (name * rng)) :=
   | TUnk => None
   | TCls k => option_map (fun p => ci_fields (snd p)) (nth_decl (e_cls e) k)
   | TDef k => option_map snd (nth_decl (e_dtbl e) k)
+  | TList _ => None
   end.
-Definition sty_of_ty (e : env) (t : ty) : sty :=
-  match t with TyClass i => class_ty e (i_name i) | _ => TUnk end.
+(** ... and the types of those fields (known for classes) *)
+Definition ftys_of (e : env) (t : sty) : option (list (name * sty)) :=
+  match t with TCls k => option_map (fun p => ci_ftys (snd p)) (nth_decl (e_cls e) k) | _ => None end.
+Definition elem_sty (t : sty) : sty := match t with TList t' => t' | _ => TUnk end.
+(** what is known about the type a suffix yields: a field has the type it was declared with, a single subscript
+    yields an element of the list *)
+Definition suf_sty (e : env) (t : sty) (sf : suffix) : sty :=
+  match sf with
+  | SufField i _ =>
+    match ftys_of e t with
+    | Some ft => match lookup (i_name i) ft with Some x => x | None => TUnk end
+    | None => TUnk
+    end
+  | SufSlice true => elem_sty t
+  | _ => TUnk
+  end.
+Fixpoint sty_of_ty (e : env) (t : ty) : sty :=
+  match t with TyClass i => class_ty e (i_name i) | TyList t' => TList (sty_of_ty e t') | _ => TUnk end.
 
 Definition with_frames (e : env) (fs : list frame) (ts : list tframe) : env :=
   mkEnv fs ts (e_cls e) (e_mcs e) (e_defs e) (e_dtbl e) (e_dsets e).
@@ -104,6 +124,9 @@ Definition ttop (g : tframe -> tframe) (l : list tframe) : list tframe :=
 (** a new block whose variables are [vs] (newest first; nothing is known about their types) *)
 Definition push_vars (e : env) (vs : list (name * rng)) : env :=
   with_frames e (mkFrame vs [] [] :: e_frames e) (mkTF (unk vs) [] [] :: e_tfr e).
+(** a new block with one variable of a known type (the variable of a foreach over a list) *)
+Definition push_tvar (e : env) (n : name) (r : rng) (ty : sty) : env :=
+  with_frames e (mkFrame [(n, r)] [] [] :: e_frames e) (mkTF [(n, ty)] [] [] :: e_tfr e).
 (** declare a variable in the innermost block *)
 Definition add_var (e : env) (n : name) (r : rng) : env :=
   match e_frames e with
@@ -123,10 +146,13 @@ Definition tset_field (e : env) (n : name) (ty : sty) : env :=
   with_tfr e (ttop (fun tf => mkTF (tf_vars tf) ((n, ty) :: tf_fields tf) (tf_targs tf)) (e_tfr e)).
 Definition tset_targ (e : env) (n : name) (ty : sty) : env :=
   with_tfr e (ttop (fun tf => mkTF (tf_vars tf) (tf_fields tf) ((n, ty) :: tf_targs tf)) (e_tfr e)).
-Definition add_inherited (e : env) (fs : list (name * rng)) : env :=
+(** the types [ft] recorded for the names of the table [fs] (nothing for a name [ft] does not mention) *)
+Definition align (fs : list (name * rng)) (ft : list (name * sty)) : list (name * sty) :=
+  map (fun p => (fst p, match lookup (fst p) ft with Some t => t | None => TUnk end)) fs.
+Definition add_inherited (e : env) (fs : list (name * rng)) (ft : list (name * sty)) : env :=
   match e_frames e with
   | fr :: t => with_frames e (mkFrame (fr_vars fr) (fr_fields fr ++ fs) (fr_targs fr) :: t)
-                           (ttop (fun tf => mkTF (tf_vars tf) (tf_fields tf ++ unk fs) (tf_targs tf)) (e_tfr e))
+                           (ttop (fun tf => mkTF (tf_vars tf) (tf_fields tf ++ align fs ft) (tf_targs tf)) (e_tfr e))
   | [] => e
   end.
 (** a template argument re-declared under the same name replaces the earlier one in place; a new one is added
@@ -138,6 +164,8 @@ Definition add_targ (e : env) (n : name) (r : rng) : env :=
   end.
 Definition top_fields (e : env) : list (name * rng) :=
   match e_frames e with fr :: _ => fr_fields fr | [] => [] end.
+Definition top_tfields (e : env) : list (name * sty) :=
+  match e_tfr e with tf :: _ => tf_fields tf | [] => [] end.
 
 Definition at_file (f : N) (r : rng) : rng := mkR f (r_lo r) (r_hi r).
 Definition NAME : name := [78; 65; 77; 69].
@@ -166,14 +194,14 @@ Definition sty_simple (e : env) (sv : simple) : sty :=
 Definition sty_value (e : env) (v : value) : sty :=
   match v with Val _ [Inner sv []] => sty_simple e sv | _ => TUnk end.
 (** the suffixes of a value: `.f` on a value of a known record type denotes the field f of its (flattened) table;
-    nothing is known about the type of what a suffix yields *)
+    the type of what the suffix yields is [suf_sty] *)
 Fixpoint spec_sufs (f : N) (e : env) (t : sty) (sufs : list suffix) : list ev :=
   match sufs with
   | [] => []
-  | SufField i _ :: r =>
+  | SufField i fr :: r =>
     (at_file f (i_rng i), match fields_of e t with Some tb => lookup (i_name i) tb | None => None end)
-      :: spec_sufs f e TUnk r
-  | _ :: r => spec_sufs f e TUnk r
+      :: spec_sufs f e (suf_sty e t (SufField i fr)) r
+  | sf :: r => spec_sufs f e (suf_sty e t sf) r
   end.
 
 Fixpoint spec_value (f : N) (e : env) (v : value) {struct v} : list ev :=
@@ -234,6 +262,8 @@ Definition spec_mcref (f : N) (e : env) (c : classref) : list ev :=
   match c with CRef i args _ => (at_file f (i_rng i), lookup_mc e (i_name i)) :: spec_args f e args end.
 Definition classref_fields (e : env) (c : classref) : list (name * rng) :=
   match c with CRef i _ _ => match lookup (i_name i) (e_cls e) with Some ci => ci_fields ci | None => [] end end.
+Definition classref_ftys (e : env) (c : classref) : list (name * sty) :=
+  match c with CRef i _ _ => match lookup (i_name i) (e_cls e) with Some ci => ci_ftys ci | None => [] end end.
 
 (** parent classes of a record: each reference is resolved in the environment extended with the fields of the
     parents before it; the fields of a parent are visible behind the record's own declarations *)
@@ -242,7 +272,7 @@ Fixpoint spec_parents (f : N) (e : env) (ps : list classref) : list ev * env :=
   | [] => ([], e)
   | c :: r =>
     let ev1 := spec_classref f e c in
-    let '(ev2, e2) := spec_parents f (add_inherited e (classref_fields e c)) r in
+    let '(ev2, e2) := spec_parents f (add_inherited e (classref_fields e c) (classref_ftys e c)) r in
     (ev1 ++ ev2, e2)
   end.
 
@@ -264,7 +294,8 @@ Definition spec_item (f : N) (e : env) (it : item) : list ev * env :=
     let e1 := tset_field (add_field e (i_name i) (at_file f (i_rng i))) (i_name i) (sty_of_ty e t) in
     (spec_ty f e t ++ match v with Some v' => spec_value f e1 v' | None => [] end, e1)
   | ILet i v =>
-    let e1 := tset_field (add_field e (i_name i) (at_file f (i_rng i))) (i_name i) TUnk in
+    let e1 := tset_field (add_field e (i_name i) (at_file f (i_rng i))) (i_name i)
+                         (match lookup (i_name i) (top_tfields e) with Some t => t | None => TUnk end) in
     ((at_file f (i_rng i), lookup (i_name i) (top_fields e)) :: spec_value f e1 v, e1)
   | IDefvar i v => (spec_value f e v, tset_var (add_var e (i_name i) (at_file f (i_rng i))) (i_name i) (sty_value e v))
   | IAssert c m => (spec_value f e m ++ spec_value f e c, e)      (* the message is read first *)
@@ -308,12 +339,12 @@ Fixpoint spec_stmt (f : N) (e : env) (x : stmt) {struct x} : list ev * env :=
   | SAssert c m => (spec_value f e m ++ spec_value f e c, e)
   | SClass i targs ps b =>
     let loc := at_file f (i_rng i) in
-    let e0 := set_cls e (i_name i) (mkCi loc []) in
+    let e0 := set_cls e (i_name i) (mkCi loc [] []) in
     let e1 := push_vars e0 [] in
     let '(ev1, e2) := match targs with Some l => spec_targs f e1 l | None => ([], e1) end in
     let '(ev2, e3) := spec_parents f e2 ps in
     let '(ev3, e4) := spec_items f e3 b in
-    (ev1 ++ ev2 ++ ev3, set_cls e (i_name i) (mkCi loc (top_fields e4)))
+    (ev1 ++ ev2 ++ ev3, set_cls e (i_name i) (mkCi loc (top_fields e4) (top_tfields e4)))
   | SDef nm _ ps b =>
     let e0 := match name_ident nm with Some i => set_def e (i_name i) (at_file f (i_rng i)) | None => e end in
     let e1 := push_vars e0 [] in
@@ -329,7 +360,8 @@ Fixpoint spec_stmt (f : N) (e : env) (x : stmt) {struct x} : list ev * env :=
   | SDump v => (spec_value f e v, e)
   | SForeach i init b =>
     let ev0 := match init with FeRange => [] | FeValue v => spec_value f e v end in
-    let '(ev1, e1) := stmts (push_vars e [(i_name i, at_file f (i_rng i))]) b in
+    let vty := match init with FeRange => TUnk | FeValue v => elem_sty (sty_value e v) end in
+    let '(ev1, e1) := stmts (push_tvar e (i_name i) (at_file f (i_rng i)) vty) b in
     (ev0 ++ ev1, leave e e1)
   | SIf c th el =>
     let '(ev1, e1) := stmts (push_vars e []) th in
